@@ -8,5 +8,5 @@ CONSTANTS
   CheckFlags = TRUE
   Bug = "MoveTooFar"
   Deviations = {}
-INVARIANTS Spelling RefinesCursor NoHitIfDone HitIfBound PairExact LoopReportExact
+INVARIANTS RefinesCursor
 CHECK_DEADLOCK FALSE
